@@ -118,6 +118,12 @@ def conversion_structure(ctx: Ctx) -> None:
         ctx.violation("CONV", f"{q}: clock accumulation", function=q, construct="relative to absolute conversion does not accumulate wait times",
                       message="no `clock += msg.time`", file=fi.file, node=loop)
         return
+    inits = [s_ for s_ in fi.node.body if isinstance(s_, (ast.Assign, ast.AnnAssign)) and s_.lineno < loop.lineno
+             and any(isinstance(t_, ast.Name) and t_.id == clock for t_ in (s_.targets if isinstance(s_, ast.Assign) else [s_.target]))]
+    ctx.check(len(inits) == 1 and isinstance(inits[0].value, ast.Constant) and inits[0].value.value == 0 and not isinstance(inits[0].value.value, bool), "CONV",
+              f"{q}: the clock starts at 0", function=q, construct="the clock of the relative to absolute conversion does not start at 0",
+              message=f"`{short(inits[0], 60) if inits else 'no initialisation before the loop'}`: every event of the absolute view is shifted", file=fi.file,
+              node=inits[0] if inits else loop)
     flag = None
     for s in fi.node.body:
         if isinstance(s, ast.Assign) and isinstance(s.targets[0], ast.Name) and isinstance(s.value, ast.Constant) and isinstance(s.value.value, bool):
